@@ -33,14 +33,17 @@ inductive Val where
   | leaflist (l : List Scalar)
 deriving DecidableEq, Repr, Inhabited
 
+def isNaNBits (expBits manBits x : Nat) : Bool :=
+  (x &&& ((2 ^ expBits - 1) * 2 ^ manBits)) == ((2 ^ expBits - 1) * 2 ^ manBits) &&
+  (x &&& (2 ^ manBits - 1)) != 0
+
+def isZeroBits (expBits manBits x : Nat) : Bool :=
+  (x &&& ((2 ^ expBits - 1) * 2 ^ manBits + (2 ^ manBits - 1))) == 0
+
 /-- IEEE equality on bit patterns: NaN is unequal to everything, `+0 = -0`. -/
 def floatBitsEq (expBits manBits : Nat) (a b : Nat) : Bool :=
-  let expMask := (2 ^ expBits - 1) * 2 ^ manBits
-  let manMask := 2 ^ manBits - 1
-  let isNaN (x : Nat) : Bool := (x &&& expMask) == expMask && (x &&& manMask) != 0
-  let isZero (x : Nat) : Bool := (x &&& (expMask + manMask)) == 0
-  if isNaN a || isNaN b then false
-  else if isZero a && isZero b then true
+  if isNaNBits expBits manBits a || isNaNBits expBits manBits b then false
+  else if isZeroBits expBits manBits a && isZeroBits expBits manBits b then true
   else a == b
 
 /-- `value.Equal` on two set oneofs -/
